@@ -40,12 +40,17 @@ end
 * the transition whitelist names `source`;
 * per state: dict invariants of the local events, sibling names distinct, no `to_…`-named local
   events in nested scopes;
-* top level: dict invariants, state names distinct, and every `to_…`-named event is an automatic one
-  (`auto_transitions` is on and `_is_auto_transition` recognises it) — `to_…` names are reserved. -/
+* top level: dict invariants, state names distinct; with `auto_transitions` on, `to_…` names are reserved
+  for the automatic events (every `to_…`-named event is one `_is_auto_transition` recognises); with
+  `auto_transitions` off a `to_…`-named event must not be recognised as automatic — it is then exported
+  like any other — and must have no empty source entries (an emptied entry vanishes on re-import and
+  could change the "one source key per state" count). -/
 def rtOK (wl : WL) (c : Cfg) : Bool :=
   wl.tr.contains 0 &&
   stsOK c.states && nodupB (names c.states) && eventsWF c.events &&
-  c.events.all (fun e => !isTo e.name || (c.opts.autoTransitions && isAuto c.states c.states e))
+  c.events.all (fun e => !isTo e.name ||
+    (if c.opts.autoTransitions then isAuto c.states c.states e
+     else (!isAuto c.states c.states e && e.trans.all (fun kv => !kv.2.isEmpty))))
 
 /-! ### reading a markup back -/
 
@@ -120,6 +125,11 @@ carries `to_mode_<state>` events, which `_is_auto_transition` does not recognise
 def witnessAttr : Cfg :=
   { cfgBase with opts := { optsDefault with autoTransitions := true, modelAttribute := some 50 }
                  events := autoEvents false (some 50) [leaf 0, leaf 1] }
+
+/-- `auto_transitions=False` and a user-defined trigger that is merely named `to_s1` -/
+def witnessToNamed : Cfg :=
+  { cfgBase with events := [⟨.to [1], [([0], [{ source := [0], dest := some [1], prepare := [], conds := [],
+                                                before := [], after := [] }])]⟩] }
 
 /-! ### helper lemmas: export -/
 
@@ -662,20 +672,27 @@ theorem importEvents_pairs (wl : WL) (h0 : wl.tr.contains 0 = true)
     exact EvWF_normE wl e0 (hwf.2 e0 he0)
 
 /-- re-export of the rebuilt events: none of them is automatic, the entries are the original ones -/
-theorem exportEvents_compact (wl : WL) (scope root : List St) (evs : List Event)
-    (hto : ∀ e ∈ evs, isTo e.name = false) :
+theorem exportEvents_compact' (wl : WL) (scope root : List St) (evs : List Event)
+    (hna : ∀ e' ∈ compact (evs.map (normE wl)), isAuto scope root e' = false) :
     exportEvents wl scope root (compact (evs.map (normE wl))) = (pairs evs).map fun p => exportTrans wl p.1 p.2 := by
   rw [exportEvents_eq_pairs, List.filter_eq_self.mpr, pairs_compact, pairs_normE, List.map_map]
   · apply List.map_congr_left
     intro p _
     exact exportTrans_normW wl p.1 p.2
   · intro e he
-    have := compact_names _ e he
-    rw [names_normE, List.mem_map] at this
-    obtain ⟨e0, he0, hn⟩ := this
-    have h := hto e0 he0
-    rw [hn] at h
-    simp [isAuto_of_not_isTo scope root e h]
+    simp [hna e he]
+
+theorem exportEvents_compact (wl : WL) (scope root : List St) (evs : List Event)
+    (hto : ∀ e ∈ evs, isTo e.name = false) :
+    exportEvents wl scope root (compact (evs.map (normE wl))) = (pairs evs).map fun p => exportTrans wl p.1 p.2 := by
+  apply exportEvents_compact'
+  intro e he
+  have := compact_names _ e he
+  rw [names_normE, List.mem_map] at this
+  obtain ⟨e0, he0, hn⟩ := this
+  have h := hto e0 he0
+  rw [hn] at h
+  exact isAuto_of_not_isTo scope root e h
 
 theorem exportEvents_of_not_isTo (wl : WL) (scope root : List St) (evs : List Event)
     (hto : ∀ e ∈ evs, isTo e.name = false) :
@@ -719,6 +736,17 @@ def expFlag (b : Bool) (mi ignore : Tri) : Option Tri :=
 theorem flag_rt (b : Bool) (mi ignore : Tri) : expFlag b mi ((expFlag b mi ignore).getD mi) = expFlag b mi ignore := by
   cases b <;> cases mi <;> cases ignore <;> rfl
 
+theorem walk_single (sts : List St) (n : Name) : walk sts [n] = (names sts).contains n := by
+  simp [walk]
+
+theorem walk_nil (sts : List St) : walk sts [] = false := by
+  simp [walk]
+
+theorem walk_cons_cons (s : St) (r : List St) (n m : Name) (p : Path) :
+    walk (s :: r) (n :: m :: p) = if s.name == n then walk s.children (m :: p) else walk r (n :: m :: p) := by
+  simp only [walk, List.find?_cons]
+  cases s.name == n <;> rfl
+
 theorem isEmpty_of_names_eq (a b : List St) (h : names a = names b) : a.isEmpty = b.isEmpty := by
   cases a <;> cases b <;> simp_all [names]
 
@@ -726,11 +754,12 @@ mutual
 theorem rtSt (wl : WL) (h0 : wl.tr.contains 0 = true) (mi : Tri) (root : List St) :
     ∀ s : St, stOK s = true →
       ∃ s', importSt mi (exportSt wl mi root s) = some s' ∧
-        (∀ root', exportSt wl mi root' s' = exportSt wl mi root s) ∧ s'.name = s.name ∧ ndT s' = true
+        (∀ root', exportSt wl mi root' s' = exportSt wl mi root s) ∧ s'.name = s.name ∧ ndT s' = true ∧
+        ∀ p, walk s'.children p = walk s.children p
   | .mk name onEnter onExit onFinal ignore final initial events children, h => by
     simp only [stOK, Bool.and_eq_true] at h
     obtain ⟨⟨⟨hwf, hto⟩, hnd⟩, hch⟩ := h
-    obtain ⟨ch', hch1, hch2, hch3, hch4⟩ := rtSts wl h0 mi root children hch
+    obtain ⟨ch', hch1, hch2, hch3, hch4, hch5⟩ := rtSts wl h0 mi root children hch
     have hemp : ch'.isEmpty = children.isEmpty := isEmpty_of_names_eq _ _ hch3
     have hev : ∃ evs', importEvents [] (if children.isEmpty then [] else exportEvents wl children root events)
           = some evs' ∧ ∀ scope' root', (if children.isEmpty then [] else exportEvents wl scope' root' evs')
@@ -743,7 +772,7 @@ theorem rtSt (wl : WL) (h0 : wl.tr.contains 0 = true) (mi : Tri) (root : List St
     obtain ⟨evs', hev1, hev2⟩ := hev
     refine ⟨.mk name (keep wl.st 1 onEnter) (keep wl.st 0 onExit) (keep wl.st 4 onFinal)
       ((expFlag (wl.st.contains 2) mi ignore).getD mi)
-      (wl.st.contains 3 && final) (if children.isEmpty then none else initial) evs' ch', ?_, ?_, ?_, ?_⟩
+      (wl.st.contains 3 && final) (if children.isEmpty then none else initial) evs' ch', ?_, ?_, ?_, ?_, hch5⟩
     · simp only [exportSt, importSt, hch1, hev1, expFlag]
     · intro root'
       have hf := flag_rt (wl.st.contains 2) mi ignore
@@ -758,31 +787,27 @@ theorem rtSt (wl : WL) (h0 : wl.tr.contains 0 = true) (mi : Tri) (root : List St
 theorem rtSts (wl : WL) (h0 : wl.tr.contains 0 = true) (mi : Tri) (root : List St) :
     ∀ l : List St, stsOK l = true →
       ∃ l', importSts mi (exportSts wl mi root l) = some l' ∧
-        (∀ root', exportSts wl mi root' l' = exportSts wl mi root l) ∧ names l' = names l ∧ ndTs l' = true
-  | [], _ => ⟨[], rfl, fun _ => rfl, rfl, rfl⟩
+        (∀ root', exportSts wl mi root' l' = exportSts wl mi root l) ∧ names l' = names l ∧ ndTs l' = true ∧
+        ∀ p, walk l' p = walk l p
+  | [], _ => ⟨[], rfl, fun _ => rfl, rfl, rfl, fun _ => rfl⟩
   | s :: r, h => by
     simp only [stsOK, Bool.and_eq_true] at h
-    obtain ⟨s', a1, a2, a3, a4⟩ := rtSt wl h0 mi root s h.1
-    obtain ⟨r', b1, b2, b3, b4⟩ := rtSts wl h0 mi root r h.2
-    refine ⟨s' :: r', ?_, ?_, ?_, ?_⟩
+    obtain ⟨s', a1, a2, a3, a4, a5⟩ := rtSt wl h0 mi root s h.1
+    obtain ⟨r', b1, b2, b3, b4, b5⟩ := rtSts wl h0 mi root r h.2
+    have hnames : names (s' :: r') = names (s :: r) := by
+      simp only [names, List.map_cons, a3] at b3 ⊢; rw [b3]
+    refine ⟨s' :: r', ?_, ?_, hnames, ?_, ?_⟩
     · simp only [exportSts, importSts, a1, b1]
     · intro root'; simp only [exportSts, a2 root', b2 root']
-    · simp only [names, List.map_cons, a3] at b3 ⊢; rw [b3]
     · simp only [ndTs, a4, b4, Bool.and_self]
+    · intro p
+      match p with
+      | [] => rw [walk_nil, walk_nil]
+      | [n] => rw [walk_single, walk_single, hnames]
+      | n :: m :: q => rw [walk_cons_cons, walk_cons_cons, a3, a5 (m :: q), b5 (n :: m :: q)]
 end
 
 /-! ### helper lemmas: the automatic transitions of the rebuilt machine -/
-
-theorem walk_single (sts : List St) (n : Name) : walk sts [n] = (names sts).contains n := by
-  simp [walk]
-
-theorem walk_nil (sts : List St) : walk sts [] = false := by
-  simp [walk]
-
-theorem walk_cons_cons (s : St) (r : List St) (n m : Name) (p : Path) :
-    walk (s :: r) (n :: m :: p) = if s.name == n then walk s.children (m :: p) else walk r (n :: m :: p) := by
-  simp only [walk, List.find?_cons]
-  cases s.name == n <;> rfl
 
 theorem walk_mem_names (sts : List St) (n : Name) (p : Path) (h : walk sts (n :: p) = true) : n ∈ names sts := by
   cases p with
@@ -899,8 +924,22 @@ theorem eventsWF_filter (p : Event → Bool) (evs : List Event) (h : eventsWF ev
   intro e he
   exact h.2 e (List.mem_filter.mp he).1
 
-/-- the top-level scope: on top of automatic events `A` of the rebuilt machine, the transitions of the
-non-automatic events come back -/
+/-- the top-level scope, general form: on top of automatic events `A` of the rebuilt machine the transitions of
+the non-automatic events come back, provided none of the rebuilt events is taken for an automatic one -/
+theorem rtEvents_gen (wl : WL) (h0 : wl.tr.contains 0 = true)
+    (sts sts' : List St) (evs A : List Event) (hwf : eventsWF evs = true)
+    (hA : ∀ e ∈ A, isAuto sts' sts' e = true)
+    (hdisj : ∀ e ∈ evs.filter (fun e => !isAuto sts sts e), e.name ∉ A.map (·.name))
+    (hna : ∀ e' ∈ compact ((evs.filter (fun e => !isAuto sts sts e)).map (normE wl)), isAuto sts' sts' e' = false) :
+    ∃ evs', importEvents A (exportEvents wl sts sts evs) = some evs' ∧
+      exportEvents wl sts' sts' evs' = exportEvents wl sts sts evs := by
+  refine ⟨A ++ compact ((evs.filter (fun e => !isAuto sts sts e)).map (normE wl)), ?_, ?_⟩
+  · rw [exportEvents_eq_pairs]
+    exact importEvents_pairs wl h0 A _ (eventsWF_filter _ evs hwf) hdisj
+  · rw [exportEvents_append, exportEvents_all_auto wl sts' sts' A hA, List.nil_append,
+      exportEvents_compact' wl sts' sts' _ hna, exportEvents_eq_pairs]
+
+/-- `auto_transitions` on: `to_…` names are reserved for the automatic events -/
 theorem rtEvents_top (wl : WL) (h0 : wl.tr.contains 0 = true)
     (sts sts' : List St) (evs A : List Event) (hwf : eventsWF evs = true)
     (hto : ∀ e ∈ evs, isTo e.name = true → isAuto sts sts e = true)
@@ -913,24 +952,94 @@ theorem rtEvents_top (wl : WL) (h0 : wl.tr.contains 0 = true)
     cases ht : isTo e.name with
     | true => rw [hto e he ht]
     | false => rw [isAuto_of_not_isTo sts sts e ht]
-  have hnt : ∀ e ∈ evs.filter (fun e => !isTo e.name), isTo e.name = false := by
+  have hnt : ∀ e ∈ evs.filter (fun e => !isAuto sts sts e), isTo e.name = false := by
     intro e he
+    rw [hfilter] at he
     have := (List.mem_filter.mp he).2
     simpa using this
-  have hexp : exportEvents wl sts sts evs
-      = (pairs (evs.filter (fun e => !isTo e.name))).map fun p => exportTrans wl p.1 p.2 := by
-    rw [exportEvents_eq_pairs, hfilter]
-  refine ⟨A ++ compact ((evs.filter (fun e => !isTo e.name)).map (normE wl)), ?_, ?_⟩
-  · rw [hexp]
-    apply importEvents_pairs wl h0 A _ (eventsWF_filter _ evs hwf)
-    intro e he hmem
+  apply rtEvents_gen wl h0 sts sts' evs A hwf hA
+  · intro e he hmem
     rw [List.mem_map] at hmem
     obtain ⟨a, ha, hn⟩ := hmem
     have h1 := isTo_of_isAuto sts' sts' a (hA a ha)
     rw [hn, hnt e he] at h1
     exact Bool.noConfusion h1
-  · rw [exportEvents_append, exportEvents_all_auto wl sts' sts' A hA, List.nil_append,
-      exportEvents_compact wl sts' sts' _ hnt, hexp]
+  · intro e' he'
+    have := compact_names _ e' he'
+    rw [names_normE, List.mem_map] at this
+    obtain ⟨e0, he0, hn⟩ := this
+    have h := hnt e0 he0
+    rw [hn] at h
+    exact isAuto_of_not_isTo sts' sts' e' h
+
+theorem mkKey_of_ne (k : Path) (l : List Trans) (h : l.isEmpty = false) : mkKey k l = [(k, l)] := by
+  simp [mkKey, h]
+
+theorem compactK_of_nonempty (kvs : List (Path × List Trans)) (h : kvs.all (fun kv => !kv.2.isEmpty) = true) :
+    compactK kvs = kvs := by
+  induction kvs with
+  | nil => rfl
+  | cons kv r ih =>
+    simp only [List.all_cons, Bool.and_eq_true, Bool.not_eq_eq_eq_not, Bool.not_true] at h
+    simp only [compactK, List.flatMap_cons] at ih ⊢
+    rw [ih (by simpa using h.2), mkKey_of_ne _ _ h.1]
+    rfl
+
+theorem normE_nonempty (wl : WL) (e : Event) (h : e.trans.all (fun kv => !kv.2.isEmpty) = true) :
+    (normE wl e).trans.all (fun kv => !kv.2.isEmpty) = true := by
+  simp only [normE, List.all_map, List.all_eq_true] at h ⊢
+  intro kv hkv
+  simpa using h kv hkv
+
+theorem mem_compact (evs : List Event) (e' : Event) (h : e' ∈ compact evs) :
+    ∃ e ∈ evs, e' = ⟨e.name, compactK e.trans⟩ := by
+  simp only [compact, List.mem_flatMap] at h
+  obtain ⟨e, he, hm⟩ := h
+  refine ⟨e, he, ?_⟩
+  unfold mkEv at hm
+  split at hm
+  · simp at hm
+  · simpa using hm
+
+theorem hasState_congr (sts sts' : List St) (hn : names sts' = names sts) (hw : ∀ p, walk sts' p = walk sts p)
+    (p : Path) : hasState sts' sts' p = hasState sts sts p := by
+  match p with
+  | [] => rfl
+  | [n] => simp only [hasState, hn]
+  | n :: m :: q => simp only [hasState, hw]
+
+theorem isAuto_congr (sts sts' : List St) (hn : names sts' = names sts) (hw : ∀ p, walk sts' p = walk sts p)
+    (e e' : Event) (hname : e'.name = e.name) (hlen : e'.trans.length = e.trans.length) :
+    isAuto sts' sts' e' = isAuto sts sts e := by
+  have hl : sts'.length = sts.length := by
+    have := congrArg List.length hn
+    simpa [names] using this
+  simp only [isAuto, hname, hlen, hl, hasState_congr sts sts' hn hw]
+
+/-- `auto_transitions` off: every event is exported, `to_…`-named ones included; none is taken for an
+automatic one in the rebuilt machine either -/
+theorem rtEvents_top_off (wl : WL) (h0 : wl.tr.contains 0 = true)
+    (sts sts' : List St) (evs : List Event) (hwf : eventsWF evs = true)
+    (hn : names sts' = names sts) (hw : ∀ p, walk sts' p = walk sts p)
+    (hto : ∀ e ∈ evs, isTo e.name = true →
+      isAuto sts sts e = false ∧ e.trans.all (fun kv => !kv.2.isEmpty) = true) :
+    ∃ evs', importEvents [] (exportEvents wl sts sts evs) = some evs' ∧
+      exportEvents wl sts' sts' evs' = exportEvents wl sts sts evs := by
+  apply rtEvents_gen wl h0 sts sts' evs [] hwf (by simp) (by simp)
+  intro e' he'
+  obtain ⟨en, hen, rfl⟩ := mem_compact _ e' he'
+  rw [List.mem_map] at hen
+  obtain ⟨e, he, rfl⟩ := hen
+  have he0 := (List.mem_filter.mp he).1
+  cases ht : isTo e.name with
+  | false => exact isAuto_of_not_isTo sts' sts' _ ht
+  | true =>
+    obtain ⟨hna, hne⟩ := hto e he0 ht
+    rw [compactK_of_nonempty _ (normE_nonempty wl e hne)]
+    have := isAuto_congr sts sts' hn hw e ⟨(normE wl e).name, (normE wl e).trans⟩ rfl
+      (by simp only [normE, List.length_map])
+    rw [this]
+    exact hna
 
 theorem exportMk_eq (wl : WL) (c : Cfg) :
     exportMk wl c =
@@ -948,20 +1057,31 @@ theorem roundtrip (wl : WL) (c : Cfg) (h : rtOK wl c = true) :
     ∃ c', importMk c.hier (exportMk wl c) = some c' ∧ exportMk wl c' = exportMk wl c := by
   simp only [rtOK, Bool.and_eq_true] at h
   obtain ⟨⟨⟨⟨h0, hsts⟩, hnd⟩, hwf⟩, hto⟩ := h
-  obtain ⟨sts', s1, s2, s3, s4⟩ := rtSts wl h0 c.opts.ignore c.states c.states hsts
-  have hA : ∀ e ∈ (if c.opts.autoTransitions then autoEvents c.hier c.opts.modelAttribute sts' else []),
-      isAuto sts' sts' e = true := by
+  obtain ⟨sts', s1, s2, s3, s4, s5⟩ := rtSts wl h0 c.opts.ignore c.states c.states hsts
+  have hev : ∃ evs', importEvents
+      (if c.opts.autoTransitions then autoEvents c.hier c.opts.modelAttribute sts' else [])
+      (exportEvents wl c.states c.states c.events) = some evs' ∧
+      exportEvents wl sts' sts' evs' = exportEvents wl c.states c.states c.events := by
     cases hauto : c.opts.autoTransitions with
-    | false => intro e he; simp at he
     | true =>
       simp only [if_true]
-      exact autoEvents_isAuto c.hier c.opts.modelAttribute sts' (s3 ▸ hnd) s4
-  have hto' : ∀ e ∈ c.events, isTo e.name = true → isAuto c.states c.states e = true := by
-    intro e he ht
-    have := List.all_eq_true.mp hto e he
-    simp only [ht, Bool.not_true, Bool.false_or, Bool.and_eq_true] at this
-    exact this.2
-  obtain ⟨evs', e1, e2⟩ := rtEvents_top wl h0 c.states sts' c.events _ hwf hto' hA
+      rw [hauto] at hto
+      simp only [if_true] at hto
+      apply rtEvents_top wl h0 c.states sts' c.events _ hwf
+      · intro e he ht
+        have := List.all_eq_true.mp hto e he
+        simpa [ht] using this
+      · exact autoEvents_isAuto c.hier c.opts.modelAttribute sts' (s3 ▸ hnd) s4
+    | false =>
+      simp only [Bool.false_eq_true, if_false]
+      rw [hauto] at hto
+      simp only [Bool.false_eq_true, if_false] at hto
+      apply rtEvents_top_off wl h0 c.states sts' c.events hwf s3 s5
+      intro e he ht
+      have := List.all_eq_true.mp hto e he
+      simp only [ht, Bool.not_true, Bool.false_or, Bool.and_eq_true, Bool.not_eq_eq_eq_not] at this
+      exact this
+  obtain ⟨evs', e1, e2⟩ := hev
   refine ⟨{ hier := c.hier, name := c.name, initial := c.initial, prepareEvent := c.prepareEvent
             beforeSC := c.beforeSC, afterSC := c.afterSC, finalize := c.finalize
             onException := c.onException, onFinal := c.onFinal, opts := c.opts, states := sts'
